@@ -10,6 +10,10 @@ const (
 )
 
 var registry = []*HarnessSpec{
+	{Prop: "C12", Name: "zzH12handle", Pkg: pkgCorerad, Tier: "quick", Bounds: "Advertiser.handle on an RA that shares a prefix and a route with ours; our and their lifetimes, hop limit, forwarding symbolic"},
+	{Prop: "C04", Name: "zzH12handle", Pkg: pkgCorerad, Tier: "quick", Bounds: "consistency-check path: forwarding read once, our RA follows it"},
+	{Prop: "C10", Name: "zzH10mon", Pkg: pkgCorerad, Tier: "quick", NoNative: true, Bounds: "Monitor.Run with all its real goroutines, with or without an open link-state subscription; one invalid message, then an opaque receive error / a non-timeout net.Error / a link-state change"},
+	{Prop: "C09", Name: "zzH10mon", Pkg: pkgCorerad, Tier: "quick", NoNative: true, Bounds: "monitor side: an invalid message is counted invalid and reaches no monitor metric"},
 	{Prop: "C13", Name: "zzH13b", Pkg: pkgSystem, Tier: "quick", Params: map[string]int{"messages": 2}, Bounds: "2 rtnetlink address messages with symbolic 32-bit flags, prefix length, cache lifetime and address; execute failing or not"},
 	{Prop: "C14", Name: "zzH13b", Pkg: pkgSystem, Tier: "quick", Params: map[string]int{"messages": 2}, Bounds: "address flags source (shared with C13)"},
 	{Prop: "C15", Name: "zzH15b", Pkg: pkgSystem, Tier: "quick", Bounds: "2 interfaces with symbolic flags, one symbolic route message per queried interface"},
@@ -18,6 +22,7 @@ var registry = []*HarnessSpec{
 	{Prop: "C17", Name: "zzH17b", Pkg: pkgCrhttp, Tier: "quick", Unwind: 200, Bounds: "debug API request for a monitoring interface plus an advertising interface with one stanza of every kind (real parser), prepared or never prepared, forwarding symbolic, State read failing or not"},
 	{Prop: "C17", Name: "zzH17c", Pkg: pkgCrhttp, Tier: "quick", Bounds: "all four (prometheus, pprof) combinations"},
 	{Prop: "C17", Name: "zzH17a", Pkg: pkgCorerad, Tier: "quick", Unwind: 600, Bounds: "three interfaces (advertising with one stanza of every kind parsed by the real parser, monitoring, neither) in 3 orders; plugins prepared or never prepared; forwarding/autoconf per interface symbolic; lifetimes symbolic"},
+	{Prop: "C08", Name: "zzH08e", Pkg: pkgCorerad, Tier: "quick", MonoTime: true, NoNative: true, Explore: true, Sched: 3000, Bounds: "Advertiser.Run with all its real goroutines; a solicitation injected and the context cancelled back to back; goroutine schedules explored up to the budget"},
 	{Prop: "C08", Name: "zzH08d", Pkg: pkgCorerad, Tier: "quick", MonoTime: true, NoNative: true, Bounds: "Advertiser.Run with all its real goroutines over a scripted socket; stopped while idle / with a solicited response pending / with a solicited response in flight; terminate or reload"},
 	{Prop: "C08", Name: "zzH08b", Pkg: pkgCorerad, Tier: "quick", Bounds: "signalTask.Run for SIGINT / SIGTERM / SIGHUP with a cancel function that reads the recorded decision"},
 	{Prop: "C20", Name: "zzH08b", Pkg: pkgCorerad, Tier: "quick", Bounds: "signalTask.Run for SIGINT / SIGTERM / SIGHUP with a cancel function that reads the recorded decision"},
@@ -46,6 +51,7 @@ var registry = []*HarnessSpec{
 	{Prop: "C02", Name: "zzH02route", Pkg: pkgConfig, Tier: "quick", Bounds: "one route stanza: prefix string of every shape, lifetime of every shape, preference low/high/absent/unknown, deprecated"},
 	{Prop: "C02", Name: "zzH02rdnss", Pkg: pkgConfig, Tier: "quick", Bounds: "one rdnss stanza: lifetime of every shape, 0..3 server strings each unparsable / IPv4 / any IPv6 address"},
 	{Prop: "C02", Name: "zzH02overlap", Pkg: pkgConfig, Tier: "quick", Params: map[string]int{"n": 2, "n@thorough": 3}, Bounds: "2 (3) prefix or route stanzas with arbitrary canonical IPv6 prefixes (incl. the wildcards)"},
+	{Prop: "C01", Name: "zzH02iface", Pkg: pkgConfig, Tier: "quick", Bounds: "name/names groups: every interface gets its own plugin objects"},
 	{Prop: "C02", Name: "zzH02iface", Pkg: pkgConfig, Tier: "quick", Bounds: "name set/unset x 0..2 names x monitor x advertise x garbage advertising keys"},
 	{Prop: "C02", Name: "zzH02parse", Pkg: pkgConfig, Tier: "quick", Bounds: "0..3 interface groups of 1-2 names from a pool of three; debug address set/unset, resolvable or not; decoder failing or not"},
 	{Prop: "C02", Name: "zzH02pref64", Pkg: pkgConfig, Tier: "quick", Bounds: "one pref64 stanza: prefix absent / empty / unparsable / any IPv4 or IPv6 prefix of any length"},
